@@ -31,6 +31,11 @@ CHECKS = {
         "covers": ["C09/bid-succeeds", "C09/cancel-succeeds", "C09/accept-succeeds", "C09/register-buy-succeeds"],
         "assumptions": A_COMMON + A_STORE + A_BANK + ["A-COINS1: a stored price string is a single canonical coin (written from Coin.String()) or does not parse"],
     },
+    "C15": {
+        "groups": [{"pkgs": "./x/storage/keeper", "fns": ["VH_C15_*"]}],
+        "covers": ["C15/init-succeeds", "C15/shutdown-succeeds"],
+        "assumptions": A_COMMON + A_STORE + A_BANK + ["params satisfy the module's own validators (executed)", "WF: a Collateral record exists only together with the Providers record of the same address (both written and removed together by InitProvider/ShutdownProvider)"],
+    },
     "C16": {
         "groups": [{"pkgs": "./x/rns/keeper", "fns": ["VH_C16_*"]}],
         "covers": ["C16/register-succeeds", "C16/register-fails", "C16/renewal-of-live-name"],
